@@ -318,6 +318,8 @@ class ExprMixin:
             if t[0] == "obj":
                 f = self.M.lookup(self.M.classes[t[1]], "__contains__") if t[1] in self.M.classes else None
                 if f is not None:
+                    if self.is_layer(t[1]):
+                        return self.layer_call(cont, t[1], f, [item], {}, node)
                     return self.call_method(f, cont, [item], {}, node, t[1])
             if t[0] == "h5":
                 return self.raw_op(cont, t[1], "__contains__", [item], {}, node)
